@@ -12,7 +12,8 @@
    later nm v d d' : both version times serialize, and that of d' is strictly later.          *)
 From Coq Require Import String ZArith List Bool Sorting.Sorted.
 From V Require Import Base.UString Base.Json Model.Timestamp Model.Versioning Spec.VersioningSpec
-  Gen.VersioningTables Proofs.VersioningFacts Proofs.VersioningProofs Proofs.VersioningChain.
+  Spec.TimestampSpec Gen.VersioningTables Proofs.VersioningFacts Proofs.VersioningProofs Proofs.VersioningChain
+  Proofs.VersioningText.
 Import ListNotations.
 Open Scope bool_scope. Open Scope list_scope. Open Scope Z_scope.
 
@@ -117,6 +118,27 @@ Theorem chain_increasing : forall T nm ops c d v, good_ver v -> tables_ok T ->
   StronglySorted (later nm v) (d :: new_versions T nm c d ops).
 Proof. exact chain_increasing_lemma. Qed.
 Print Assumptions chain_increasing.
+
+(* ---- "after serialization": ser_value is what the text written by the library denotes
+   (format_datetime through the C15 model, read by the strict reader of Spec/TimestampSpec.v) ---- *)
+Theorem ser_is_serialized_text : forall nm v x t, good_ver v -> value_ok v x ->
+  ser_value nm v (Some x) = Some t -> in_range t = true ->
+  exists i txt rd, tsinput_of x = Some i /\ write nm Pad4 PMilli (pconstraint_of v) i = Ok txt /\
+                   spec_read txt = Some rd /\ denotes rd t.
+Proof. exact ser_text_lemma. Qed.
+Print Assumptions ser_is_serialized_text.
+
+Theorem nv_strict_text : forall T nm c d ch now d' v xo xn, good_ver v -> NoDup (keys d) -> NoDup (keys ch) ->
+  check_versionable T c d = Ok v -> new_version T nm c d ch now = Ok d' ->
+  version_time d = Some xo -> version_time d' = Some xn -> value_ok v xo -> value_ok v xn ->
+  (forall t, ser_value nm v (Some xo) = Some t -> in_range t = true) ->
+  (forall t, ser_value nm v (Some xn) = Some t -> in_range t = true) ->
+  exists io i_n txt_o txt_n rd_o rd_n a b,
+    tsinput_of xo = Some io /\ tsinput_of xn = Some i_n /\
+    write nm Pad4 PMilli (pconstraint_of v) io = Ok txt_o /\ write nm Pad4 PMilli (pconstraint_of v) i_n = Ok txt_n /\
+    spec_read txt_o = Some rd_o /\ spec_read txt_n = Some rd_n /\ denotes rd_o a /\ denotes rd_n b /\ a < b.
+Proof. exact nv_strict_text_lemma. Qed.
+Print Assumptions nv_strict_text.
 
 (* ---- the hypotheses are satisfiable; the model computes ---- *)
 Definition ex_identity : pdict :=
